@@ -18,7 +18,25 @@ let accessors (v : Ref.jv) : string =
 
 let parse_strict h = match Ref.ref_text true (bytes_of_hex h) with Some ((v, _), _) -> Some v | None -> None
 
+(* the reference tree as the value type of Model/Visitor.v (scalars and member names rendered as in the dumps) and its
+   event list, computed by the extracted Visitor.events: the premise of the visitor theorem *)
+let rec to_vjv (v : Ref.jv) : (string, string) Visitor.jv =
+  match v with
+  | Ref.JNull -> Visitor.JS "n" | Ref.JBool true -> Visitor.JS "t" | Ref.JBool false -> Visitor.JS "f"
+  | Ref.JNum lit -> Visitor.JS (dump_num lit)
+  | Ref.JStr (d, _) -> Visitor.JS ("s" ^ hex_of_bytes d)
+  | Ref.JArr xs -> Visitor.JArr (Stdlib.List.map (fun ((_, _), x) -> to_vjv x) xs)
+  | Ref.JObj ms -> Visitor.JObj (Stdlib.List.map (fun (((k, _), _), x) -> ("s" ^ hex_of_bytes k, to_vjv x)) ms)
+let show_ev = function
+  | Visitor.EScalar s -> s | Visitor.EKey k -> k
+  | Visitor.EStart false -> "[" | Visitor.EStart true -> "{"
+  | Visitor.EEnd (false, n) -> "]" ^ string_of_int (int_of_nat n) | Visitor.EEnd (true, n) -> "}" ^ string_of_int (int_of_nat n)
+
 let () =
+  reg_memo 1 "domevents" (function h :: _ ->
+      (match parse_strict h with
+       | Some v -> String.concat " " ("<" :: Stdlib.List.map show_ev (Visitor.events (to_vjv v)) @ [">"])
+       | None -> "reject") | _ -> raise (Bad_op "domevents"));
   reg "expect" (function _ -> "true");
   reg "echo" (function h :: _ -> h | _ -> raise (Bad_op "echo"));
   reg "metapack" (function [k; i; l] ->
